@@ -789,6 +789,10 @@ func c21library() (map[string]*c21builtin, api.FunctionSymbols) {
 		}},
 		{name: "pair", fixed: 2, impl: func(in *c21interp, a A) (c21val, *c21err) { return &c21pairV{a[0], a[1]}, nil },
 			goFn: func(c *api.Context, a interface{}, b interface{}) (api.Pair, error) { return api.AnyAnyPair{a, b}, nil }},
+		{name: "tri", fixed: 3, impl: func(in *c21interp, a A) (c21val, *c21err) { return &c21pairV{a[0], &c21pairV{a[1], a[2]}}, nil },
+			goFn: func(c *api.Context, a interface{}, b interface{}, d interface{}) (api.Pair, error) {
+				return api.AnyAnyPair{a, api.AnyAnyPair{b, d}}, nil
+			}},
 		{name: "first", fixed: 1, impl: func(in *c21interp, a A) (c21val, *c21err) {
 			p, err := c21wantPair("first", a[0])
 			if err != nil {
